@@ -192,6 +192,8 @@ class Exec:
 
     def strlit(self, s):
         c = z3.Const('strlit!' + re.sub(r'\W', '_', s) + '!%d' % (hash(s) % 100000), Str)
+        if not hasattr(self, 'lits'): self.lits = {}
+        self.lits[s] = c
         return c
 
     # ---- expressions; returns list of (state, value-or-None, exc-or-None)
@@ -613,6 +615,93 @@ def main():
             tool_errors.append(str(e))
         except SystemExit as e:
             tool_errors.append(str(e))
+    # ---- wiring units: configuration value -> constructor argument -> field, followed through the real sources
+    for w in cfg.get('python_wiring', []):
+        try:
+            P = lambda k: w[k].replace('/repo', repo, 1)
+            module, classes, externs, consts = parse_contracts(P('contracts'))
+            wc = None
+            for cname, cs in classes.items():
+                for mname, mc in cs.methods.items():
+                    if a.prop in mc.props: wc = (cname, mname, mc, cs)
+            if wc is None: raise ToolError('wiring %s: no contract with prop %s in %s' % (w['name'], a.prop, P('contracts')))
+            cname, mname, mc, cs = wc
+            init_tree = ast.parse(open(P('init_source')).read(), filename=P('init_source'))
+            ex = Exec(init_tree, P('init_source'), classes, externs, consts)
+            if (cname, mname) not in ex.methods: raise ToolError('wiring %s: %s.%s not found in %s' % (w['name'], cname, mname, P('init_source')))
+            # (1) the defaults of the configuration class, evaluated from its class body (load_env_value: trusted model -
+            #     the integer value of the variable when it is set and parses, the default otherwise)
+            ctree = ast.parse(open(P('config_source')).read(), filename=P('config_source'))
+            mconst = {}
+            for node in ctree.body:
+                if isinstance(node, ast.Assign) and len(node.targets) == 1 and isinstance(node.targets[0], ast.Name) and isinstance(node.value, ast.Constant) and isinstance(node.value.value, str):
+                    mconst[node.targets[0].id] = node.value.value
+            env_set = ex.uf('ext!env_set!Str', Str, z3.BoolSort()); env_int = ex.uf('ext!env_int!Str', Str, z3.IntSort())
+            cfields = {}
+            ccls = [n for n in ctree.body if isinstance(n, ast.ClassDef) and n.name == w['config_class']]
+            if not ccls: raise ToolError('wiring %s: class %s not found in %s' % (w['name'], w['config_class'], P('config_source')))
+            for st_ in ccls[0].body:
+                if isinstance(st_, ast.AnnAssign) and isinstance(st_.target, ast.Name) and isinstance(st_.value, ast.Call) and isinstance(st_.value.func, ast.Name) and st_.value.func.id == 'load_env_value':
+                    k, cast, dflt = st_.value.args[0], st_.value.args[1], st_.value.args[2]
+                    key = mconst.get(k.id) if isinstance(k, ast.Name) else (k.value if isinstance(k, ast.Constant) else None)
+                    if key is None or not (isinstance(cast, ast.Name) and cast.id == 'int') or not (isinstance(dflt, ast.Constant) and isinstance(dflt.value, int)):
+                        raise ToolError('wiring %s: %s.%s: default not of the form load_env_value(<string constant>, int, <int>)' % (w['name'], w['config_class'], st_.target.id))
+                    kc = ex.strlit(key)
+                    cfields[st_.target.id] = z3.If(env_set(kc), env_int(kc), z3.IntVal(dflt.value))
+            ex.trusted.add('extern load_env_value (trusted model: the integer value of the environment variable when set and parseable, else the default)')
+            # (2) the construction site: keyword arguments that read <...>.<config_attr>.<field>
+            ktree = ast.parse(open(P('call_source')).read(), filename=P('call_source'))
+            calls = [n for n in ast.walk(ktree) if isinstance(n, ast.Call) and isinstance(n.func, ast.Name) and n.func.id == cname]
+            if len(calls) != 1: raise ToolError('wiring %s: expected exactly one construction %s(...) in %s, found %d' % (w['name'], cname, P('call_source'), len(calls)))
+            fdef = ex.methods[(cname, mname)]
+            params = [p.arg for p in fdef.args.args if p.arg != 'self']
+            argv = {}
+            def argval(v, pname):
+                if isinstance(v, ast.Attribute) and isinstance(v.value, ast.Attribute) and v.value.attr == w['config_attr'] and v.attr in cfields:
+                    return Opt(z3.BoolVal(False), cfields[v.attr])
+                return fresh(pname, 'opaque')
+            for i, v in enumerate(calls[0].args):
+                if i < len(params): argv[params[i]] = argval(v, params[i])
+            for kw in calls[0].keywords:
+                if kw.arg in params: argv[kw.arg] = argval(kw.value, kw.arg)
+            # (3) the constructor body, run on these arguments
+            fields = {n: fresh('self.' + n, t) for n, t in cs.fields.items()}
+            st0 = State(fields, {}, [], z3.Real('now@0'))
+            for p_ in params: st0.locs[p_] = argv.get(p_, fresh(p_, 'opaque'))
+            pre = st0.clone()
+            ocs = ex.block(fdef.body, st0, cname)
+            fname = 'wiring:%s' % w['name']
+            goalsets = []
+            for lab, text, ln in mc.ensures:
+                goals = []
+                for oc in ocs:
+                    spec = {'old': pre, 'result': NONE, 'raised': oc.exc if oc.kind == 'raise' else None}
+                    (_, v, _), = ex.expr(ast.parse(desugar(text), mode='eval').body, oc.st, cname, spec)
+                    goals.append(z3.Implies(z3.And(*oc.st.pc) if oc.st.pc else z3.BoolVal(True), ex.truth(v)))
+                goalsets.append((lab, text, ln, z3.And(*goals) if goals else z3.BoolVal(True)))
+            lits = list(getattr(ex, 'lits', {}).values())
+            hyps = [z3.Distinct(*lits)] if len(lits) > 1 else []
+            nob = 0
+            for lab, text, ln, goal in goalsets:
+                r, dt, model, smt = solve(hyps, goal, to * 1000); nob += 1
+                name = '%s#ensures[%s]' % (fname, lab)
+                fn = '%s/%s.smt2' % (vc_dir, re.sub(r'[^\w.]', '_', name)); open(fn, 'w').write(smt)
+                obs.append({'name': name, 'kind': 'postcondition', 'func': fname, 'pos': '%s:%d' % (os.path.relpath(P('contracts'), repo), ln), 'text': text, 'expect': 'unsat', 'result': r,
+                            'backend': 'z3-py-' + z3.get_version_string(), 'seconds': dt, 'smt_file': fn, 'status': 'discharged' if r == 'unsat' else 'FAILED', 'model': model})
+            s_ = z3.Solver(); s_.set('timeout', 6000)
+            for h in hyps: s_.add(h)
+            s_.add(z3.Or(*[z3.And(*oc.st.pc) if oc.st.pc else z3.BoolVal(True) for oc in ocs]))
+            r = str(s_.check())
+            obs.append({'name': fname + '#reach.return', 'kind': 'vacuity', 'func': fname, 'pos': os.path.relpath(P('init_source'), repo), 'text': '', 'expect': 'sat', 'result': r,
+                        'backend': 'z3-py-' + z3.get_version_string(), 'seconds': 0.0, 'smt_file': '', 'status': 'reachable' if r == 'sat' else ('VACUOUS' if r == 'unsat' else 'reachability-unknown'), 'model': None})
+            funcs.append({'func': fname, 'source': '%s + %s + %s' % (os.path.relpath(P('config_source'), repo), os.path.relpath(P('call_source'), repo), os.path.relpath(P('init_source'), repo)),
+                          'contract': '%s:%d' % (os.path.relpath(P('contracts'), repo), mc.line), 'paths': len(ocs), 'obligations': nob, 'inlined_callees': sorted(ex.inlined),
+                          'externs': sorted(ex.trusted), 'notes': sorted(ex.notes), 'modes': ['seq']})
+            trusted |= ex.trusted; notes |= ex.notes
+        except ToolError as e:
+            tool_errors.append(str(e))
+        except SystemExit as e:
+            tool_errors.append(str(e))
     nproof = sum(1 for o in obs if o['expect'] == 'unsat'); ndis = sum(1 for o in obs if o['status'] == 'discharged')
     nvac = sum(1 for o in obs if o['expect'] == 'sat'); nvacok = sum(1 for o in obs if o['status'] == 'reachable')
     for f in funcs: print('func %-60s modes=[seq] obligations=%d paths=%d' % (f['func'], f['obligations'], f['paths']))
@@ -658,6 +747,12 @@ def main():
     if nproof < cfg.get('min_obligations', 1): tool_errors.append('only %d obligations generated (expected at least %d): contracts did not bind' % (nproof, cfg.get('min_obligations', 1)))
     for k in known_hits: print(k)
     for te in tool_errors: print('TOOL-ERROR', te)
+    if tool_errors and not violations:
+        # the sources parse but a contract of this property no longer binds to them: obligations discharged on the unchanged
+        # tree can not be generated, the property is undecided here - reported as a violation without a failing input
+        rp = '%s/contract-binds.json' % rp_dir
+        json.dump({'property': a.prop, 'obligation': 'contract-binds', 'why': 'the contracts of this property no longer bind to the sources', 'solver_output': '\n'.join(tool_errors), 'replay_status': 'no-model'}, open(rp, 'w'), indent=1)
+        violations.append('VIOLATION property=%s replay=%s no-failing-input-found' % (a.prop, rp))
     for v in violations: print(v)
     wall = time.time() - t0
     print('property %s: %d/%d obligations discharged, %d/%d vacuity guards reachable, %d known-finding obligations, %d violations, %.1fs' % (a.prop, ndis + len(known_hits), nproof, nvacok, nvac, len(known_hits), len(violations), wall))
